@@ -795,10 +795,6 @@ func runMergeCursor(c *core.Ctx) {
 			continue
 		}
 		for _, rb := range an.ReturnBlocks(host) {
-			// leaving the host with "refused" is fine: nothing is forwarded at the old timestamp
-			if rv := an.ReturnValues(an.LastInstr(rb).(*ssa.Return)); host != fn && len(rv) == 1 && isConstBool(rv[0], false) {
-				continue
-			}
 			if an.Reachable(r.Block(), rb, nil, avoid) {
 				good = false
 			}
@@ -1000,6 +996,24 @@ func runStateCallers(c *core.Ctx) {
 				for _, a := range allowed {
 					if a != nil && root == a {
 						ok = true
+					}
+					// a private helper of the session that only an allowed handler calls (`ss.setEOSE(id, idx)`,
+					// the EOSE handler's decision moved out) acts for that handler
+					if a != nil && an.PrivateHelper(root) && recvTypeName(root) == recvTypeName(a) {
+						cs := callerIndex(c)[root]
+						only := len(cs) > 0
+						for _, cf := range cs {
+							cr := cf
+							for cr.Parent() != nil {
+								cr = cr.Parent()
+							}
+							if cr != a {
+								only = false
+							}
+						}
+						if only {
+							ok = true
+						}
 					}
 				}
 				if !ok {
